@@ -22,6 +22,27 @@ def outsOfH (arg : Int) (l : List (HEv ℚ)) : List (Timer.Out ℚ) := l.filterM
   | .fire t => some (.fire t [arg])
   | _ => none
 
+/-- the instants of the callback invocations in a piece of history -/
+def firesH (l : List (HEv ℚ)) : List ℚ := l.filterMap fun
+  | .fire t => some t
+  | _ => none
+
+theorem firesOf_eq (tr : Array (Obs ℚ)) : firesOf tr = firesH (histOf tr) := by
+  unfold firesOf firesH
+  congr 1
+  funext x
+  cases x <;> rfl
+
+theorem firesH_append (l l' : List (HEv ℚ)) : firesH (l ++ l') = firesH l ++ firesH l' := by
+  simp [firesH, List.filterMap_append]
+
+theorem outsOfH_eq (arg : Int) (l : List (HEv ℚ)) : outsOfH arg l = (firesH l).map fun t => Timer.Out.fire t [arg] := by
+  unfold outsOfH firesH
+  rw [List.map_filterMap]
+  congr 1
+  funext x
+  cases x <;> rfl
+
 /-- what a sound configuration step delivers -/
 def StepOK (auto : Bool) (arg : Int) (cbs : List (Option Op)) (T : ℚ) (a : A) (q : QEntry ℚ) (hist : List (HEv ℚ)) (a' : A)
     (new : List (HEv ℚ)) : Prop :=
